@@ -95,6 +95,11 @@ CHECKS = {
         technique="deviation-bounded exploration (<=1 network deviation) of every send program of <=2/3 steps from three start states (fresh, counters preset 5 below the 16-bit wrap, reduced 63-value ring that wraps within every history) on the real stack; monitor on every emitted datagram: per-key nonce table, reference AES-GCM decryption with the full 20-byte header as AAD, plaintext marker search",
         text="384 (quick) / ~3500 (thorough) configurations x all single deviations (2.0e4 executions, 3.4e6 ticks quick): no two encrypted datagrams of a session share bytes 0-11; every datagram emitted by a keyed endpoint except SERVER_HELLO decrypts under the session key with the whole header authenticated; the application marker never appears on the wire. Thorough adds one honest 70000-frame history that really wraps the 16-bit counter.",
         note="non-decreasing clock and at most one update per frame assumed (the statement's premises); the reduced ring is used for this monitor only, argument in the module docstring and DESIGN.md"),
+    "C12": dict(
+        engine="mcx", category="model_checking", design="5/C12",
+        technique="explicit-state exploration of the idle real stack per configuration with a canonical state on ages and relative sequence numbers until the state graph closes (cycle), exhaustive frame-jitter sequences (2^10), every cut phase of a keep-alive period, every subset x order x before/after split of the client setters and orders of the ServerContext setters, with timing oracles on the virtual clock",
+        text="38 (quick) / 45 idle configurations (5 keep-alive intervals x 2 timeouts x 5 frame lengths): 30 close into a cycle (proof of 'stays up indefinitely' under uniform dyadic frames), the 1/60 s rows are run to a 20/60 s horizon; 6144 jitter executions; 67 cut cases (server disconnect within one tick after the timeout, client DROPPED within one frame after 5 s); 12 unanswered-connect cases; 49 client-setter and 3/120 server-setter cases with observed effect.",
+        note="'one send tick' read leniently (smallest multiple of the frame exceeding send_interval); relative-sequence hashing relies on C08; no network faults other than cuts"),
 }
 
 NOT_YET = {
